@@ -562,7 +562,53 @@ pub fn verify_case(ctx: &mut Ctx, b: &Base, p: &Proved, vqs: &[VQ], t: &Tamper, 
         ctx.case("sets-verifier", true, &line, &crate::sets::fmt_sets(&res, |first| ids[first]));
     }
     let out = run_verifier(&p.st, &p.coms, vqs, &bytes, &f, &pi, p.salt);
-    let line = format!("verify K={} T={} Q={} X={}", hexl(&p.dlogs), t.fmt(), fmt_vqs(vqs), hexl(&out.ch));
+    // what a sequential reader finds in the (tampered) proof for the read pattern
+    // [point, nsets scalars, point]; nsets = number of point sets of the verifier's queries
+    let nsets_v = {
+        let qs = build_vqs(&p.coms, vqs);
+        verif_sets_verifier::<Fq, Kzg>(&qs).map(|r| r.1.len()).unwrap_or(0)
+    };
+    let view = {
+        let mut c = Cursor::new(bytes.clone());
+        match <G1Projective as Hashable<Blake2bState>>::read(&mut c) {
+            Err(_) => "-;-;-".to_string(),
+            Ok(g) => {
+                let vf = if g == f { "F" } else { "U" };
+                let mut qs = vec![];
+                let mut ok = true;
+                for _ in 0..nsets_v {
+                    match <Fq as Hashable<Blake2bState>>::read(&mut c) {
+                        Ok(x) => qs.push(x),
+                        Err(_) => {
+                            ok = false;
+                            break;
+                        }
+                    }
+                }
+                let vp = if !ok {
+                    "-"
+                } else {
+                    match <G1Projective as Hashable<Blake2bState>>::read(&mut c) {
+                        Err(_) => "-",
+                        Ok(g) => {
+                            if g == pi {
+                                "P"
+                            } else {
+                                "U"
+                            }
+                        }
+                    }
+                };
+                format!("{vf};{};{vp}", hexl(&qs))
+            }
+        }
+    };
+    let (df, dp) = match t {
+        Tamper::F(d) => (*d, Fq::ZERO),
+        Tamper::Pi(d) => (Fq::ZERO, *d),
+        _ => (Fq::ZERO, Fq::ZERO),
+    };
+    let line = format!("verify K={} T={},{} V={} Q={} X={}", hexl(&p.dlogs), fe_hex(&df), fe_hex(&dp), view, fmt_vqs(vqs), hexl(&out.ch));
     let ans = if out.panicked.is_some() { "panic".to_string() } else { format!("ev={} {}", out.ev, out.ans) };
     ctx.case(&format!("verify-{what}"), true, &line, &ans);
     let all_true = vqs.iter().all(|q| claim_true(&p.table, q));
